@@ -28,11 +28,13 @@ import (
 //
 //	I | F<force>:node | N:node | B:node,node.. | D:idx:pick | R<dueFast><dueSlow>:pick,pick..
 //	A:idx:<responded>:<node or ->:pick | T:node:<success>:<node,node.. or ->:pick
+//	P:idx:<pingAnswered>:<pongSeq>:<ENR answer: node, or - = request fails>:pick   (through the real doRevalidate)
 //
 // snapshot = components joined by '&', a delta lists only the components that changed:
 //
 //	b<j>=<entries>~<replacements>~<ipset>   entry = idx.seq.ip.port.checks.live.list(f|s|-)
-//	t=<ipset>  f=<idx,..>  s=<idx,..>  a=<idx.attached,..>  x=<idx.ip.fails,..>  n=<0|1>
+//	t=<ipset>  f=<idx,..>  s=<idx,..>  a=<idx.attached.startSeq,..>  x=<idx.ip.fails,..>  n=<0|1>
+//	r=<didRespond>/<newRecord node or -> : what doRevalidate handed to handleResponse in this step (P ops; - = none in flight)
 //	ipset = <key24 hex>.<count>,..  sorted by key
 func init() {
 	registry["C07"] = func(c *Ctx) { runTable(c, "C07") }
@@ -53,11 +55,12 @@ type tableOp struct {
 	flag    bool // F: force, A: responded, T: success
 	flag2   bool
 	nodes   []tblNode // B, T found
-	idx     int     // D, A
-	hasRec  bool    // A
+	idx     int       // D, A
+	hasRec  bool      // A
 	picks   []int
 	dueFast bool
 	dueSlow bool
+	pingSeq uint64 // P
 }
 
 type tableHist struct {
@@ -133,6 +136,12 @@ func (h *tableHist) opStr(o tableOp) string {
 			rec = h.nodeStr(o.n)
 		}
 		return fmt.Sprintf("A:%d:%s:%s:%d", o.idx, tblB01(o.flag), rec, o.picks[0])
+	case 'P':
+		rec := "-"
+		if o.hasRec {
+			rec = h.nodeStr(o.n)
+		}
+		return fmt.Sprintf("P:%d:%s:%d:%s:%d", o.idx, tblB01(o.flag), o.pingSeq, rec, o.picks[0])
 	case 'T':
 		return fmt.Sprintf("T:%s:%s:%s:%d", h.nodeStr(o.n), tblB01(o.flag), h.nodesStr(o.nodes), o.picks[0])
 	}
@@ -201,6 +210,15 @@ func parseTableOp(s string) tableOp {
 			o.n = tblParseNode(f[3])
 		}
 		o.picks = tblParsePicks(f[4])
+	case 'P':
+		o.idx, _ = strconv.Atoi(f[1])
+		o.flag = f[2] == "1"
+		o.pingSeq, _ = strconv.ParseUint(f[3], 10, 64)
+		if f[4] != "-" {
+			o.hasRec = true
+			o.n = tblParseNode(f[4])
+		}
+		o.picks = tblParsePicks(f[5])
 	case 'T':
 		o.n = tblParseNode(f[1])
 		o.flag = f[2] == "1"
@@ -278,15 +296,16 @@ func (h *tableHist) components(s portalwire.VerifSnapshot, withLists bool) (keys
 		type av struct {
 			i   int
 			att bool
+			sq  uint64
 		}
 		var al []av
 		for _, a := range s.Active {
-			al = append(al, av{h.index[a.ID], a.Attached})
+			al = append(al, av{h.index[a.ID], a.Attached, a.StartSeq})
 		}
 		sort.Slice(al, func(i, j int) bool { return al[i].i < al[j].i })
 		ap := make([]string, len(al))
 		for i, a := range al {
-			ap[i] = fmt.Sprintf("%d.%s", a.i, tblB01(a.att))
+			ap[i] = fmt.Sprintf("%d.%s.%d", a.i, tblB01(a.att), a.sq)
 		}
 		vals["a"] = strings.Join(ap, ",")
 		type fv struct {
@@ -327,7 +346,7 @@ func tblDeltaStr(keys []string, prev, cur map[string]string) string {
 
 // ---- execution of one operation on the real table
 
-func (h *tableHist) apply(v *portalwire.VerifTable, o tableOp) {
+func (h *tableHist) apply(v *portalwire.VerifTable, o tableOp) (outcome string) {
 	switch o.kind {
 	case 'I':
 		v.SetInitDone()
@@ -351,6 +370,20 @@ func (h *tableHist) apply(v *portalwire.VerifTable, o tableOp) {
 			rec = h.real(o.n)
 		}
 		v.RevalResp(h.pool[o.idx], o.flag, rec, o.picks[0])
+	case 'P':
+		var rec *enode.Node
+		if o.hasRec {
+			rec = h.real(o.n)
+		}
+		out := v.RevalPing(h.pool[o.idx], o.flag, o.pingSeq, o.hasRec, rec, o.picks[0])
+		if !out.InFlight {
+			return "-"
+		}
+		nr := "-"
+		if out.NewRecord != nil {
+			nr = fmt.Sprintf("%s.%d.%s.%d", h.ix(out.NewRecord.ID()), out.NewRecord.Seq(), tblIPStr(out.NewRecord.IPAddr()), out.NewRecord.UDP())
+		}
+		return tblB01(out.DidRespond) + "/" + nr
 	case 'T':
 		ns := make([]*enode.Node, len(o.nodes))
 		for i, n := range o.nodes {
@@ -358,6 +391,7 @@ func (h *tableHist) apply(v *portalwire.VerifTable, o tableOp) {
 		}
 		v.Track(h.real(o.n), o.flag, ns, o.picks[0])
 	}
+	return ""
 }
 
 // runHistory executes a history.  next is asked for the following operation with the current snapshot
@@ -367,6 +401,8 @@ func (h *tableHist) runHistory(c *Ctx, next func(step int, s portalwire.VerifSna
 	defer v.Close()
 	snap := v.Snapshot()
 	keys, prev := h.components(snap, true)
+	keys = append(keys, "r")
+	prev["r"] = ""
 	snaps := []string{tblDeltaStr(keys, nil, prev)}
 	var ops []string
 	status := "ok"
@@ -378,7 +414,8 @@ func (h *tableHist) runHistory(c *Ctx, next func(step int, s portalwire.VerifSna
 		ops = append(ops, h.opStr(o))
 		c.Count("op_" + string(o.kind))
 		v.RandLog()
-		if p, msg := guard(func() { h.apply(v, o) }); p {
+		outcome := ""
+		if p, msg := guard(func() { outcome = h.apply(v, o) }); p {
 			status = fmt.Sprintf("panic %d %s", step, msg)
 			c.Count("panic")
 			break
@@ -389,6 +426,7 @@ func (h *tableHist) runHistory(c *Ctx, next func(step int, s portalwire.VerifSna
 		snap = v.Snapshot()
 		tableCoverage(c, snap)
 		_, cur := h.components(snap, true)
+		cur["r"] = outcome
 		snaps = append(snaps, tblDeltaStr(keys, prev, cur))
 		prev = cur
 	}
@@ -439,7 +477,7 @@ type tableGen struct {
 	victims []int
 	length  int
 	small   []int // pool indices of a distance class with exactly 3, 4 or 5 ids (the 5-failures rule at the bucketSize/4 boundary)
-	focus   int // pool index of a node that gets bursts of track requests (failures with a success in between); 0 = none
+	focus   int   // pool index of a node that gets bursts of track requests (failures with a success in between); 0 = none
 }
 
 var tableSeqs = []int{0, 1, 1, 2, 3, 5}
@@ -642,6 +680,49 @@ func (g *tableGen) next(step int, s portalwire.VerifSnapshot) (tableOp, bool) {
 			return tableOp{kind: 'R', dueFast: true, dueSlow: true, picks: []int{r.Intn(300), r.Intn(300)}}, true
 		}
 		a := s.Active[r.Intn(len(s.Active))]
+		if r.Intn(2) == 0 {
+			// through the real doRevalidate: the remote node answers the ping or not, announces a seq that is equal to /
+			// higher than / lower than the captured one, and the ENR request fails or returns a record
+			o := tableOp{kind: 'P', idx: h.index[a.ID], flag: r.Intn(10) < 7, picks: []int{pick()}}
+			switch r.Intn(5) {
+			case 0:
+				o.pingSeq = a.StartSeq
+			case 1:
+				if a.StartSeq > 0 {
+					o.pingSeq = a.StartSeq - 1
+				}
+			default:
+				o.pingSeq = a.StartSeq + 1 + uint64(r.Intn(2))
+			}
+			if !o.flag && r.Intn(3) != 0 {
+				o.pingSeq = 0 // a real transport reports seq 0 together with the error
+			}
+			if r.Intn(10) < 6 {
+				o.hasRec = true
+				n := g.node(o.idx)
+				for _, e := range ents {
+					if e.ID == a.ID && r.Intn(2) == 0 { // same endpoint as stored
+						n.port = uint16(e.Port)
+						if e.IP.IsValid() {
+							n.hasIP, n.ip = true, e.IP.As4()
+						}
+					}
+				}
+				switch r.Intn(4) {
+				case 0:
+					n.seq = a.StartSeq // not higher: bumpInBucket ignores it
+				case 1:
+					if a.StartSeq > 0 {
+						n.seq = a.StartSeq - 1
+					}
+				default:
+					n.seq = o.pingSeq + uint64(r.Intn(2))
+				}
+				o.n = n
+			}
+			g.c.Count(fmt.Sprintf("ping_ok%v_seqhigher%v_enr%v", o.flag, o.pingSeq > a.StartSeq, o.hasRec))
+			return o, true
+		}
 		o := tableOp{kind: 'A', idx: h.index[a.ID], flag: r.Intn(10) < 6, picks: []int{pick()}}
 		if r.Intn(30) == 0 {
 			o.idx = g.anyIdx() // possibly not in flight
